@@ -17,5 +17,10 @@ def declare(reg):
             "no-bad-prefix": "not has_bad(seq_set, seq_max, uid_cmd, _i)",
         }}},
         locals_={"result": "list[int]"},
-        props=["C15", "C06"],
+        props=["C15"],
+        ghost={"harness": "harness.seqset:SequenceSetToList"},
+    )
+
+    reg.properties.setdefault("C15", {}).setdefault("bounded", []).append(
+        {"name": "sequence_set_to_list-vs-denote", "module": "harness.seqset", "func": "SequenceSetToList"}
     )
